@@ -164,7 +164,7 @@ def body(chk):
                                     sample=dict(obligation='%s determinism' % tag, leaves='subset of P u args'))
                 else:
                     # two-copy query: same parameters and arguments, independent cache/undef symbols
-                    m = {t: tm.sym('copy2:' + t.p) for t in dirty}
+                    m = {t: tm.sym('copy2:' + t.p, t.sort) for t in dirty}
                     res2 = tm.subst([res], m)[0]
                     enc = smt.Encoder()
                     script = enc.script([], [tm.cmp('ne', res, res2)])
@@ -244,6 +244,40 @@ def purity_replay(chk, scalar, name, meth, sig, why):
         rc, out, err = chk.lib().run(src)
         expect = ['R params_unchanged 1', 'R same_value 1', 'R same_as_fresh 1']
         missing = [e for e in expect if e not in out]
+        if not missing and pnames:
+            # parameter-change variant: a handle that has ALREADY evaluated, then gets one parameter changed, must agree bit for bit
+            # with a fresh handle on which the same parameter was changed before any evaluation (stale caches keyed on a subset of the parameters)
+            body3 = ['int bad=0;']
+            for k, pn in enumerate(pnames[:40]):
+                body3.append('{ masa_init<Scalar>("w%d","%s"); Scalar q0 = masa_get_param<Scalar>("%s"); Scalar w0 = %s<Scalar>(%s); (void)w0; masa_set_param<Scalar>("%s", q0*(Scalar)0.75+(Scalar)0.0625);'
+                             % (k, name, pn, api, a1, pn))
+                body3.append('  Scalar rw = %s<Scalar>(%s); masa_init<Scalar>("f%d","%s"); masa_set_param<Scalar>("%s", q0*(Scalar)0.75+(Scalar)0.0625); Scalar rf = %s<Scalar>(%s);' % (api, a1, k, name, pn, api, a1))
+                body3.append('  if(!(rw==rf || (rw!=rw && rf!=rf))) { bad++; printf("\\nR stale_after_changing %s\\n"); } }' % pn)
+            body3.append('printf("\\nR param_change_consistent %d\\n", bad==0);')
+            src3 = '#include <masa.h>\n#include <cstdio>\n#include <vector>\n#include <string>\nusing namespace MASA;\ntypedef %s Scalar;\nint main(){\n%s\n return 0;}\n' % (cxx, '\n'.join(body3))
+            rc3, out3, _ = chk.lib().run(src3)
+            if 'R param_change_consistent 1' not in out3:
+                missing = ['value after a parameter change equals the value on a fresh handle with the same parameters: ' + ' '.join(l for l in out3.split('\n') if l.startswith('R stale'))[:200]]
+                src, out = src3, out3
+        if not missing:
+            # process-history variant: in a second process another handle of the same solution with different parameter values is
+            # evaluated FIRST (function-local statics, global caches); the target value must be the same as when it is evaluated first
+            pre = ['masa_init<Scalar>("z","%s");' % name]
+            for pn in pnames:
+                pre.append('masa_set_param<Scalar>("%s", masa_get_param<Scalar>("%s")*(Scalar)1.37+(Scalar)0.01);' % (pn, pn))
+            pre.append('{ volatile Scalar t_ = %s<Scalar>(%s); (void)t_; }' % (api, a2))
+            body2 = ['bool first = (getenv("VERIF_ORDER")==0);', 'if(!first){ %s }' % ' '.join(pre), 'masa_init<Scalar>("a","%s");' % name]
+            for vn in vnames:
+                body2.append('{ std::vector<Scalar> d(3); d[0]=(Scalar)0.25; d[1]=(Scalar)1.5; d[2]=(Scalar)2.75; masa_set_vec<Scalar>("%s",d); }' % vn)
+            body2.append('printf("\\nR value %%.21Lg\\n",(long double)%s<Scalar>(%s));' % (api, a1))
+            src2 = '#include <masa.h>\n#include <cstdio>\n#include <cstdlib>\n#include <vector>\n#include <string>\nusing namespace MASA;\ntypedef %s Scalar;\nint main(){\n%s\n return 0;}\n' % (cxx, '\n'.join(body2))
+            rcA, outA, _ = chk.lib().run(src2)
+            rcB, outB, _ = chk.lib().run(src2, env={'VERIF_ORDER': 'B'})
+            va = [l for l in outA.split('\n') if l.startswith('R value')]
+            vb = [l for l in outB.split('\n') if l.startswith('R value')]
+            if va and vb and va[-1] != vb[-1]:
+                missing = ['value independent of what the process evaluated before: %s vs %s' % (va[-1], vb[-1])]
+                src, out = src2, outA + outB
         if missing:
             path = chk.save_replay(ob, dict(obligation=ob.name, expected=expect, stdout=out[-1500:], why=why), src)
             return dict(reproduced=True, path=path, detail='%s<%s> %s: %s; real library: %r fails' % (name, scalar, api, why, missing))
